@@ -106,8 +106,39 @@ func c11Send(c *p2p.Conn, dir, idx int, op c11Op) error {
 	}
 }
 
+// c11Held keeps the byte slices ReceiveData returned (the slices themselves,
+// not copies), as a receiver that collects several messages before using them
+// does; recheck compares them with what was sent once more after all later
+// receives: a value that was right when it was returned must stay right.
+type c11Held struct {
+	items []c11HeldItem
+	bytes int
+}
+
+type c11HeldItem struct {
+	dir, idx, n int
+	v           []byte
+}
+
+func (h *c11Held) keep(dir, idx, n int, v []byte) {
+	if h == nil || h.bytes+len(v) > 24<<20 {
+		return
+	}
+	h.bytes += len(v)
+	h.items = append(h.items, c11HeldItem{dir, idx, n, v})
+}
+
+func (h *c11Held) recheck() string {
+	for _, it := range h.items {
+		if !bytes.Equal(it.v, c11Payload(it.dir, it.idx, it.n)) {
+			return fmt.Sprintf("op %d of direction %d: the %d-byte slice ReceiveData returned was correct then and has changed after later receives", it.idx, it.dir, it.n)
+		}
+	}
+	return ""
+}
+
 // c11Recv receives and checks op; returns a description of the mismatch.
-func c11Recv(c *p2p.Conn, dir, idx int, op c11Op) (string, error) {
+func c11Recv(c *p2p.Conn, dir, idx int, op c11Op, held *c11Held) (string, error) {
 	var ld ot.LabelData
 	switch op.kind {
 	case 0:
@@ -132,6 +163,9 @@ func c11Recv(c *p2p.Conn, dir, idx int, op c11Op) (string, error) {
 		v, err := c.ReceiveData()
 		if err == nil && !bytes.Equal(v, c11Payload(dir, idx, op.n)) {
 			return fmt.Sprintf("data of %d bytes differs (got %d bytes)", op.n, len(v)), nil
+		}
+		if err == nil {
+			held.keep(dir, idx, op.n, v)
 		}
 		return "", err
 	case 4:
@@ -171,7 +205,7 @@ func init() {
 	vrt.Register(&vrt.Prop{
 		ID: "C11", Level: "exploration",
 		Rule: "case = a pair of PRNG-generated operation scripts (1-400 typed sends: byte, uint16, uint32, data, string, label, size list; payload sizes around 0, 16, 64 KiB +-, 3x64 KiB, 1 MiB +-, 2.5 MiB; flushes at PRNG positions; a filler so fixed-width values straddle the write-buffer end; every payload embeds (direction, op index)) run in both directions at once over p2p.NewConn(tap) with read fragmentation from 1 byte to whole buffer, write delays and lazy copying, or one direction at a time over p2p.Pipe; the script ends with Close (no final Flush). " +
-			"Oracle: the received value sequence equals the sent one; after Close the reader drains everything and then sees EOF; Stats.Sent / Stats.Recvd equal the bytes the tap accepted from / delivered to that side. Thorough runs under the race detector (reports with p2p frames are violations). Distinct = hash(scripts, transport mode).",
+			"Oracle: the received value sequence equals the sent one, and every byte slice ReceiveData returned is kept (not copied) and still equals the sent payload after all later receives; after Close the reader drains everything and then sees EOF; Stats.Sent / Stats.Recvd equal the bytes the tap accepted from / delivered to that side. Thorough runs under the race detector (reports with p2p frames are violations). Distinct = hash(scripts, transport mode).",
 		Assumptions: []string{"one goroutine per connection end issues sends and receives (as the protocol code does)", "behaviour after a transport error is not part of the statement"},
 		NumCases: func(t string) int {
 			if t == "thorough" {
@@ -246,6 +280,7 @@ func runC11(cs *vrt.Case) {
 		err      error
 		pan      *vrt.PanicInfo
 		eof      error
+		held     int
 	}
 	var res [2]result
 	var chunks [2][]int
@@ -262,6 +297,13 @@ func runC11(cs *vrt.Case) {
 		defer wg.Done()
 		c := conns[e]
 		mine, theirs := scripts[e], scripts[1-e]
+		held := &c11Held{}
+		defer func() {
+			if res[e].mismatch == "" && res[e].pan == nil {
+				res[e].mismatch = held.recheck()
+			}
+			res[e].held = len(held.items)
+		}()
 		res[e].pan = vrt.Guard(func() {
 			if usePipe {
 				// one direction at a time: endpoint 0 sends first
@@ -280,7 +322,7 @@ func runC11(cs *vrt.Case) {
 						}
 					} else {
 						for i, op := range theirs {
-							m, err := c11Recv(c, 1-e, i, op)
+							m, err := c11Recv(c, 1-e, i, op, held)
 							if err != nil {
 								res[e].err = fmt.Errorf("receive op %d: %w", i, err)
 								return
@@ -318,7 +360,7 @@ func runC11(cs *vrt.Case) {
 				}
 				if j < len(chunks[1-e]) {
 					for k := chunks[1-e][j]; k > 0; k-- {
-						m, err := c11Recv(c, 1-e, ri, theirs[ri])
+						m, err := c11Recv(c, 1-e, ri, theirs[ri], held)
 						if err != nil {
 							res[e].err = fmt.Errorf("receive op %d: %w", ri, err)
 							return
@@ -396,6 +438,7 @@ func runC11(cs *vrt.Case) {
 	}
 	for e := 0; e < 2; e++ {
 		cs.Evals += int64(len(scripts[e]))
+		cs.Count("received_slices_held_and_rechecked_at_the_end", int64(res[e].held))
 		if res[e].pan != nil {
 			if res[e].pan.InMPC {
 				cs.Violate("C11|panic|"+res[e].pan.Frame, "connection layer panicked: "+res[e].pan.Value, map[string]any{"case": desc, "stack": res[e].pan.Stack})
